@@ -414,6 +414,13 @@ def rounded(prog, rep):
                     continue
                 x, y = m["?x"], m["?y"]
                 cons = x[1][1].split("::")[-1] if x[0] == "payload" and x[1][0] == "call" else None
+                if cons in ("next", "next_back") and x[1][3]:
+                    # a forward search over the reversed range is the backward search (and vice versa)
+                    it_ = strip_refs(x[1][3][0])
+                    while it_[0] == "call" and it_[1].split("::")[-1] in ("into_iter", "by_ref", "clone", "rev") and len(it_[3]) == 1:
+                        if it_[1].split("::")[-1] == "rev":
+                            cons = "next_back" if cons == "next" else "next"
+                        it_ = strip_refs(it_[3][0])
                 rows_ok = guard_fact(rr, want[q], y) in fs
                 y_ok = y[0] == "payload" and y[1][0] == "call" and y[1][1].split("::")[-1] == "next" and any(n == ("field", rr, fidx["rows"]) for n in walk(y[1]))
                 prev = got.get(q)
